@@ -1,3 +1,96 @@
-(* C04 - property theorems only (placeholder while the proofs are being written) *)
+(* C04 - SNBT <-> NBT: property theorems only.
+   Model/C04.v: trees, NBT grammar `doc`, spec printer `pr` with layout, spec parser `parse`, writer model `to_text`.
+   Proofs: Proofs/C04.v (tokens), C04_rt.v (parse . print), C04_wr.v (writer = a layout), C04_snd.v (soundness).
+   The float oracles (strconv.FormatFloat / ParseFloat) are explicit parameters with their round-trip hypothesis. *)
 From Coq Require Import List NArith ZArith.
-From GoMC Require Import Model.C04.
+From GoMC Require Import Base.Bytes Gen.Consts Model.C04 Proofs.C04 Proofs.C04_rt Proofs.C04_wr Proofs.C04_snd.
+Import ListNotations.
+Open Scope N_scope.
+
+Definition oracle_ok (fin : N -> bool) (fm : N -> flit) (pf : flit -> option N) : Prop :=
+  forall b, fin b = true -> flit_ok (fm b) = true /\ pf (fm b) = Some b.
+
+(* every text of L - any whitespace, quote style, suffix case, optional '+', optional I / D suffix - that
+   prints a well-formed tree with finite floats parses back to exactly that tree *)
+Theorem C04_spec_roundtrip : forall fm32 fm64 pf32 pf64,
+  oracle_ok fin32 fm32 pf32 -> oracle_ok fin64 fm64 pf64 ->
+  forall (ly : layout) (t : tag), lay_ok ly -> wf t = true ->
+  parse pf32 pf64 (pr fm32 fm64 ly t) = Some t.
+Proof. exact spec_roundtrip. Qed.
+
+(* the Go writer (as modelled) emits one particular layout of L, for every tree *)
+Theorem C04_writer_in_L : forall fm32 fm64 (t : tag), to_text fm32 fm64 t = pr fm32 fm64 wly t.
+Proof. exact to_text_is_layout. Qed.
+
+(* binary -> text -> binary: the text written for any well-formed tree with finite floats reads back as that
+   tree - empty strings and keys, number-like strings, negative bytes, typed arrays, nested lists included *)
+Theorem C04_text_roundtrip : forall fm32 fm64 pf32 pf64,
+  oracle_ok fin32 fm32 pf32 -> oracle_ok fin64 fm64 pf64 ->
+  forall t : tag, wf t = true -> parse pf32 pf64 (to_text fm32 fm64 t) = Some t.
+Proof. intros fm32 fm64 pf32 pf64 H32 H64. exact (text_roundtrip fm32 fm64 pf32 pf64 H32 H64). Qed.
+
+(* hence the text determines the value *)
+Theorem C04_text_injective : forall fm32 fm64 pf32 pf64,
+  oracle_ok fin32 fm32 pf32 -> oracle_ok fin64 fm64 pf64 ->
+  forall t1 t2 : tag, wf t1 = true -> wf t2 = true ->
+  to_text fm32 fm64 t1 = to_text fm32 fm64 t2 -> t1 = t2.
+Proof.
+  intros fm32 fm64 pf32 pf64 H32 H64 t1 t2 W1 W2 E.
+  pose proof (text_roundtrip fm32 fm64 pf32 pf64 H32 H64 t1 W1) as A.
+  pose proof (text_roundtrip fm32 fm64 pf32 pf64 H32 H64 t2 W2) as B.
+  rewrite E in A. rewrite A in B. inversion B. reflexivity.
+Qed.
+
+(* whatever the spec parser accepts - any byte string, any float oracle - is a well-formed NBT value:
+   integers in range for their tag, typed-array elements in range, every list homogeneous *)
+Theorem C04_parse_sound : forall pf32 pf64 (s : list N) (t : tag),
+  parse pf32 pf64 s = Some t -> wfs t = true.
+Proof. exact parse_sound. Qed.
+
+(* ... and that guarantee is exactly the round-trip precondition minus float finiteness *)
+Theorem C04_wf_implies_wfs : forall t : tag, wf t = true -> wfs t = true.
+Proof. exact (proj1 wf_wfs). Qed.
+
+(* the tag ids of the NBT grammar are the constants of nbt/nbt.go *)
+Theorem C04_tag_ids :
+  map kind [TByte 0; TShort 0; TInt 0; TLong 0; TFloat 0; TDouble 0; TByteArray []; TString []; TList LNil;
+            TCompound CNil; TIntArray []; TLongArray []] = [1; 2; 3; 4; 5; 6; 7; 8; 9; 10; 11; 12]
+  /\ tid nbt_TagEnd = 0.
+Proof. split; reflexivity. Qed.
+
+(* non-vacuity: the oracle hypothesis is satisfiable, and concrete instances *)
+Definition toy_fm (b : N) : flit := (false, dec_N b, []).
+Definition toy_pf (f : flit) : option N := let '(_, i, _) := f in Some (undec_N i).
+Example C04_oracle_inhabited : oracle_ok fin32 toy_fm toy_pf /\ oracle_ok fin64 toy_fm toy_pf.
+Proof.
+  assert (H: forall fin, oracle_ok fin toy_fm toy_pf).
+  { intros fin b _. unfold toy_fm, toy_pf, flit_ok. rewrite undec_dec. split; [|reflexivity].
+    destruct (dec_N_cons b) as (d & ds & E & Hd & Hds). rewrite E. simpl. rewrite Hd, Hds. reflexivity. }
+  split; apply H.
+Qed.
+(* {a:[ 1b,-2B ] , "k y":'v\''}  *)
+Example C04_ex_parse :
+  parse toy_pf toy_pf [123;97;58;91;32;49;98;44;45;50;66;32;93;32;44;32;34;107;32;121;34;58;39;118;92;39;39;125]
+  = Some (TCompound (CCons [97] (TList (LCons (TByte 1) (LCons (TByte (-2)) LNil)))
+                    (CCons [107;32;121] (TString [118;39]) CNil))).
+Proof. vm_compute. reflexivity. Qed.
+(* writer: {"":"",x:[B;-1B],"1":"true"} *)
+Example C04_ex_write :
+  to_text toy_fm toy_fm (TCompound (CCons [] (TString []) (CCons [120] (TByteArray [(-1)%Z])
+                                   (CCons [49] (TString [116;114;117;101]) CNil))))
+  = [123;34;34;58;34;34;44;120;58;91;66;59;45;49;66;93;44;34;49;34;58;34;116;114;117;101;34;125]
+  /\ wf (TCompound (CCons [] (TString []) (CCons [120] (TByteArray [(-1)%Z])
+                                   (CCons [49] (TString [116;114;117;101]) CNil)))) = true.
+Proof. split; vm_compute; reflexivity. Qed.
+(* out-of-range and heterogeneous texts are rejected by the spec: 128b, [1,2b] *)
+Example C04_ex_reject :
+  parse toy_pf toy_pf [49;50;56;98] = None /\ parse toy_pf toy_pf [91;49;44;50;98;93] = None.
+Proof. split; vm_compute; reflexivity. Qed.
+
+Print Assumptions C04_spec_roundtrip.
+Print Assumptions C04_writer_in_L.
+Print Assumptions C04_text_roundtrip.
+Print Assumptions C04_text_injective.
+Print Assumptions C04_parse_sound.
+Print Assumptions C04_wf_implies_wfs.
+Print Assumptions C04_tag_ids.
